@@ -150,6 +150,9 @@ def r1_key_normalisation(run, w):
       ok = bool(rs) and all(
         _normalised_comp(flow, r, lambda it: bool(it) and all(
           x.kind == "param" and x.node == p and not x.path for x in it)) for r in rs)
+      if not ok and any(r.kind in ("call", "unknown", "global") for r in rs):
+        raise AnalysisError("%s: cannot follow how the key passed to %s is built"
+                            % (q, short(c, 60)))
       run.ob(R1, q, short(c), "the key handed on is tuple(_extract(v) for v in %s): records are "
              "replaced by their row ids exactly as in the index" % p, ok, fi=fn.fi, node=c)
   # (b) every lookup_by_key call receives a normalised key
@@ -183,7 +186,45 @@ def r1_key_normalisation(run, w):
             x.kind == "call" and isinstance(x.node.func, ast.Attribute) and
             x.node.func.attr == "get_new_keys_iter" and not x.path for x in inner)
         return False
-      ok = bool(rs) and all(good(r) for r in rs)
+      def decided(r, cfn=fn, depth=0):
+        """True / False when the origin is positively (not) a normalised key; AnalysisError when
+        it cannot be followed."""
+        if good(r):
+          return True
+        if r.kind == "param" and cfn.fi.name == "_do_fast_lookup":
+          return False            # the raw key of a lookup, by contract
+        if r.kind == "param" and r.node not in ("self",) and depth < 2:
+          sites2 = H._call_sites(w, cfn.fi)
+          if sites2:
+            res = True
+            for (sfn, sn, sc) in sites2:
+              b = H.bind_args(sc, cfn.fi)
+              if r.node not in b:
+                raise AnalysisError("%s: cannot follow parameter %s" % (cfn.qualname, r.node))
+              sflow = H._flow_of(sfn)
+              for r2 in sflow.roots(b[r.node], sn.id):
+                r2 = r2.plus(*r.path)
+                # within the caller the same tests apply
+                if not (_normalised_comp(sflow, r2, lambda it: bool(it) and
+                                         all(x.kind == "param" for x in it)) or
+                        decided_in(sfn, sflow, r2, depth + 1)):
+                  res = False
+            return res
+        if r.kind == "comp" and not r.path:
+          return False            # built here, but not by _extract over the key's components
+        raise AnalysisError("%s: cannot follow where the key %s comes from (%r)"
+                            % (cfn.qualname, short(c.args[0]), r))
+      def decided_in(sfn, sflow, r2, depth):
+        if r2.kind == "call" and isinstance(r2.node.func, ast.Attribute) and \
+            r2.node.func.attr == "get_new_keys_iter":
+          return True
+        if r2.kind == "lit" and isinstance(r2.node, ast.Tuple) and not r2.node.elts:
+          return True
+        if r2.kind == "param" and sfn.fi.name in ("do_lookup", "_do_fast_lookup"):
+          return False
+        raise AnalysisError("%s: cannot follow where the key comes from (%r)"
+                            % (sfn.qualname, r2))
+      ok = bool(rs) and all(decided(r) for r in rs)
       run.ob(R1, fi.qualname, short(c), "the index is probed only with keys normalised like the "
              "stored ones", ok, witness="; ".join(repr(r) for r in rs if not good(r)) or None,
              fi=fi, node=c)
@@ -212,6 +253,9 @@ def r1_key_normalisation(run, w):
       e = H.resolve(flow, v.elts[0], rn)
       comps = H.elements(fn, flow, e.args[0], flow.node_of(e)) \
           if isinstance(e, ast.Call) and dotted(e.func) == "tuple" and len(e.args) == 1 else None
+      if comps is None:
+        raise AnalysisError("%s: cannot follow how the index key %s is built"
+                            % (m.qualname, short(e)))
       ok = bool(comps) and len(comps) == 1
       for el in comps or []:
         ok = ok and len(el.gens) == 1 and not el.conds and key_columns(el.gens[0][1]) and \
@@ -222,9 +266,15 @@ def r1_key_normalisation(run, w):
         len(v.args) == 1 and isinstance(v.args[0], ast.Starred):
       groups = v.args[0].value
       els = H.elements(fn, flow, groups, flow.node_of(v))
+      if not els:
+        raise AnalysisError("%s: cannot follow how the key components %s are collected"
+                            % (m.qualname, short(groups)))
       ok = bool(els) and len(els) == 1
       for el in els or []:
         a = H.resolve(flow, el.elt, el.nid)
+        if isinstance(a, ast.Call) and dotted(a.func) not in H.PASSTHROUGH + ("set",):
+          raise AnalysisError("%s: cannot follow the component built by %s"
+                              % (m.qualname, short(a)))
         ok = ok and len(el.gens) == 1 and not el.conds and key_columns(el.gens[0][1]) and \
             isinstance(a, (ast.ListComp, ast.GeneratorExp, ast.SetComp)) and \
             len(a.generators) == 1 and not a.generators[0].ifs and _is_extract(a.elt) and \
@@ -235,6 +285,8 @@ def r1_key_normalisation(run, w):
                   s.iter is el.gens[0][1]]
           reads = [c for c in calls_in(loop[0].body) if dotted(c.func) == "getattr" and
                    len(c.args) == 2 and text(c.args[0]) == rec] if loop else []
+          if not reads:
+            raise AnalysisError("%s: cannot find where the record's cell is read" % m.qualname)
           ok = len(reads) == 1 and isinstance(reads[0].args[1], ast.Call) and \
               dotted(reads[0].args[1].func) == "extract_column_id" and \
               text(reads[0].args[1].args[0]) == text(el.gens[0][0])
@@ -319,7 +371,16 @@ def r1_key_normalisation(run, w):
       if good:
         n_conv += 1
       else:
+        # positively unconverted: the probe value itself, or a half conversion; anything else
+        # (a helper we cannot read) is not decidable
+        half = isinstance(v, ast.Call) and isinstance(v.func, ast.Attribute) and \
+            v.func.attr in ("_convert_raw_value", "convert")
+        if not (half or probe(v) or isinstance(v, (ast.Subscript, ast.Name))):
+          raise AnalysisError("lookup_records: cannot follow how the probe value %s is "
+                              "converted" % short(v))
         n_other += 1
+    if n_cont == 0 or not [c for c in icases if isinstance(c.value, ast.Call)]:
+      raise AnalysisError("lookup_records: CONTAINS branch of the key building not found")
     conv_ok = n_conv >= 1 and n_other == 0
     moved = [c for c in icases if isinstance(c.value, ast.Call) and
              isinstance(c.value.func, ast.Attribute) and c.value.func.attr == "_replace" and
@@ -389,11 +450,13 @@ def r2_simple_update(run, w):
   NEW_T = "self.get_new_keys_iter(%s)[0]" % rec
   news = [s for s in walk_no_nested(fn.node) if isinstance(s, ast.Assign) and
           len(s.targets) == 1 and isinstance(s.targets[0], ast.Name) and inl(s.value) == NEW_T]
-  has_old = any(inl(c) == OLD_T for c in calls_in(fn.node))
+  # the key the row is mapped under now: through the accessor, or read from the map directly
+  OLD_TS = (OLD_T, "self._row_key_map.lookup_left(%s)" % row)
+  has_old = any(inl(c) in OLD_TS for c in calls_in(fn.node))
   if not has_old or len(news) != 1:
     raise AnalysisError("SimpleLookupMapping.update_record: old/new key not found")
   NEW = news[0].targets[0].id
-  is_old = lambda e: inl(e) == OLD_T
+  is_old = lambda e: inl(e) in OLD_TS
   is_new = lambda e: isinstance(e, ast.Name) and e.id == NEW or inl(e) == NEW_T
   def unchanged(t, p):
     """Atom (t, p) says: the new key equals the old key."""
@@ -469,7 +532,25 @@ def r2_contains_update(run, w):
   NEW_T = "set(self.get_new_keys_iter(%s))" % rec
   OLD_T = "self.get_mapped_keys(%s)" % row
   texts = {inl(c) for c in calls_in(fn.node)}
-  if NEW_T not in texts or OLD_T not in texts:
+  # the keys the row is mapped under now: through the accessor (which copies, see
+  # get_mapped_keys below) or read from the two-way map here -- then the copy must be made here,
+  # because the loops below edit the map's own set and the result is computed from the old keys
+  direct = [c for c in calls_in(fn.node) if _xname(fn, c.func) == "self._row_key_map.lookup_left"
+            and c.args and inl(c.args[0]) == row]
+  if OLD_T not in texts and len(direct) == 1:
+    own = H.Flow(fn, passthrough=False)
+    holder = [s_ for s_ in walk_no_nested(fn.node) if isinstance(s_, ast.Assign) and
+              any(x is direct[0] for x in ast.walk(s_.value))]
+    v = holder[0].value if len(holder) == 1 else direct[0]
+    kinds = [_owner(own, r, fn.fi.module) for r in own.roots(v, own.node_of(direct[0]))]
+    live = [k for k in kinds if k[0] in ("callee", "state", "param")]
+    run.ob(R2, fn.qualname, "old_keys = <copy of the row's mapped keys>", "the old keys are a "
+           "snapshot: the set stored in the two-way map changes under the remove/insert loops, "
+           "and new ^ old computed from it would report no key the row keeps as affected",
+           bool(kinds) and not live, witness="; ".join("%s: %r" % k for k in live) or None,
+           fi=fn.fi, node=direct[0])
+    OLD_T = inl(v)
+  if NEW_T not in texts or (OLD_T not in texts and not direct):
     raise AnalysisError("ContainsLookupMapping.update_record: old/new keys not found")
   def loop_ok(meth, a, b):
     for s in walk_no_nested(fn.node):
@@ -484,13 +565,23 @@ def r2_contains_update(run, w):
             any(_xname(fn, c.func) == "self._row_key_map." + meth and len(c.args) == 2 and
                 inl(c.args[0]) == row and text(c.args[1]) == s.target.id
                 for c in calls_in(s.body))
-    return False
+    if any(_xname(fn, c.func) == "self._row_key_map." + meth for c in calls_in(fn.node)):
+      raise AnalysisError("ContainsLookupMapping.update_record: cannot read for which keys "
+                          "%s is called" % meth)
+    return False        # no such call at all: the keys are never %s-ed
   run.ob(R2, fn.qualname, "for k in old - new: remove(row, k); for k in new - old: insert(row, k)",
          "keys the row no longer has are dropped and keys it gained are "
          "added", loop_ok("remove", OLD_T, NEW_T) and loop_ok("insert", NEW_T, OLD_T), fi=fn.fi)
   cases = [c for c in H.return_cases(fn.node)]
   ok = len(cases) == 1 and cases[0].value is not None and not cases[0].atoms and \
       inl(cases[0].value) in ("%s ^ %s" % (NEW_T, OLD_T), "%s ^ %s" % (OLD_T, NEW_T))
+  if not ok:
+    rv = [H.inline(flow, c.value) for c in cases if c.value is not None]
+    known = lambda e: text(e) in (NEW_T, OLD_T) or \
+        (isinstance(e, ast.BinOp) and known(e.left) and known(e.right))
+    if not rv or not all(known(e) for e in rv):
+      raise AnalysisError("ContainsLookupMapping.update_record: cannot read the result %s"
+                          % "; ".join(short(e) for e in rv))
   run.ob(R2, fn.qualname, "return new_keys ^ old_keys", "exactly the keys whose row set changed "
          "are reported as affected", ok, fi=fn.fi)
 
@@ -513,6 +604,9 @@ def r2_removal(run, w):
             [text(x) for x in c.args] == [p, s.target.id] for c in calls_in(s.body)) and
         not any(isinstance(x, (ast.If, ast.Break, ast.Continue, ast.IfExp)) for b in s.body
                 for x in ast.walk(b)) and not H.guards_of(fn.node, s))
+  if not ok and not any(isinstance(s, ast.For) for s in walk_no_nested(fn.node)) and \
+      any(_xname(fn, c.func) == "self._row_key_map.remove" for c in calls_in(fn.node)):
+    raise AnalysisError("remove_row_id: cannot read for which keys remove is called")
   run.ob(R2, fn.qualname, "for k in self.get_mapped_keys(%s): self._row_key_map.remove(%s, k)"
          % (p, p), "a removed row leaves the index under every key it was mapped to", ok,
          fi=fn.fi)
@@ -585,8 +679,7 @@ def r3_lookup_one(run, w):
     rn = [x.id for x in go.cfg.nodes if x.stmt is c.stmt][0]
     v = H.resolve(flow, c.value, rn)
     if not (isinstance(v, ast.Call) and _xname(go, v.func) == "self._table.Record" and v.args):
-      ok = False
-      continue
+      raise AnalysisError("RecordSet.get_one: cannot read the result %s" % short(v))
     for vc in H.value_cases(go, flow, v.args[0], flow.node_of(v)):
       ne = nonempty(list(c.atoms) + list(vc.atoms))
       tv = text(H.inline(flow, vc.value))
@@ -596,6 +689,9 @@ def r3_lookup_one(run, w):
           not isinstance(vc.value.value, bool) and ne is False:
         n_empty += 1
       else:
+        if not (tv.startswith("self._row_ids[") or isinstance(vc.value, ast.Constant)) or \
+            ne is None:
+          raise AnalysisError("RecordSet.get_one: cannot read the choice of row %s" % tv)
         ok = False
   run.ob(R3, go.qualname, "self._table.Record(self._row_ids[0] if self._row_ids else 0, ...)",
          "the first row in the documented order, or the empty record (row id 0) when nothing "
@@ -629,6 +725,10 @@ VARIANTS = [
       self._row_key_map.remove(row_id, old_key)
 
 """, "", "C13-R2"),
+  ("contains-old-keys-live-set", LK,
+   "    row_id = rec._row_id\n    old_keys = self.get_mapped_keys(row_id)",
+   "    row_id = rec._row_id\n    old_keys = self._row_key_map.lookup_left(row_id, set())",
+   "C13-R2"),
   ("mapped-keys-live-set", LK,
    "    return set(self._row_key_map.lookup_left(row_id, ()))",
    "    return self._row_key_map.lookup_left(row_id, ())", "C13-R2"),
